@@ -110,6 +110,12 @@ def check(run):
         raise AnalysisError("Boxer.exen no longer returns one 4-tuple")
     elts = [classify(e) for e in rets[0].value.elts]
     run.extra["exen_return"] = [list(x) for x in elts]
+    pnames = exen.params()[0]
+    binds = {n.targets[0].id: unparse(n.value) for n in walk_local(exen.node) if isinstance(n, ast.Assign) and isinstance(n.targets[0], ast.Name)}
+    for var, param in (("nears", pnames[0]), ("fars", pnames[1])):
+        ok = binds.get(var) == "%s.pile" % param
+        run.ob("C25.R1", "%s:%s-is-%s-pile" % (exen.fq, var, param), ok, run.site(exen),
+               "" if ok else "exen() slices `%s = %s`; the boxes to enter/exit must come from the whole %s.pile" % (var, binds.get(var), param))
     # follow by position through the unpacking in run
     unpack = [n for n in walk_local(runf.node) if isinstance(n, ast.Assign) and isinstance(n.value, ast.Call) and is_self_call(n.value, "exen")
               and isinstance(n.targets[0], ast.Tuple)]
@@ -141,7 +147,7 @@ def check(run):
     kinds = sorted((x[1], x[2]) for x in elts)
     ok = kinds == [("common", "bottom-up"), ("common", "top-down"), ("uncommon", "bottom-up"), ("uncommon", "top-down")]
     run.ob("C25.R1", "%s:returns-four-distinct-roles" % exen.fq, ok, run.site(exen), "" if ok else "exen() returns %s" % elts)
-    run.floor("C25.R1", 6)
+    run.floor("C25.R1", 8)
     # R2 tentative / commit
     dom = TentativeDomain()
     res = Interp(dom, run.lat).run(runf.node)
@@ -193,5 +199,6 @@ MUTANTS = [
     Mutant("exen-exdos-topdown", BX, "Boxer.exen", "return (list(reversed(nears[i:])), fars[i:],", "return (nears[i:], fars[i:],", {"C25.R1"}),
     Mutant("box-endo-reversed", BX, "Box.endo", "for enact in self.enacts:", "for enact in reversed(self.enacts):", {"C25.R3"}),
     Mutant("endo-before-rendo", BX, "Boxer.run", "                break\n\n            self.rendo(rendos)  # rendo nabe, action remarks and renacts\n            self.endo(endos)  # endo nabe, action enmarks and enacts\n", "                break\n\n            self.endo(endos)\n            self.rendo(rendos)\n", {"C25.R3"}),
+    Mutant("exen-fars-shortcut", BX, "Boxer.exen", "fars = far.pile  # top down order", "fars = far.pile if far not in nears else nears", {"C25.R1"}),
     Mutant("silent-exen-list", BX, "Boxer.exen", "return (list(reversed(nears[i:])), fars[i:],", "return (nears[i:][::-1], fars[i:],", silent=True),
 ]
